@@ -14,8 +14,10 @@ LEVEL_TEXT = ("Unbounded proof: for every program a row (string, class, method, 
               "(kind, class, user class, method, offset) is among the class references iff that method has a new-instance "
               "(kind 0x22) or const-class (0x1c) at that offset whose type, stripped of array dimensions, is that class and is "
               "not the method's own class. The model is compared on every run with StringAnalysis.get_xref_from, "
-              "ClassAnalysis/MethodAnalysis.get_xref_new_instance/get_xref_const_class.")
+              "ClassAnalysis/MethodAnalysis.get_xref_new_instance/get_xref_const_class. A second stream (no model: the "
+              "statement itself as oracle) analyses two DEX files that define the same class names with different code: "
+              "the instructions of every definition must be listed.")
 LEVEL_NOTE = ("Trusted: Coq kernel; coq/Analysis/XrefModel.v as a description of what create_xref leaves behind; "
               "tools/vlib/xref_common.py, tools/writers/dexwriter.py.")
 TRUSTED = ["hand-written model coq/Analysis/XrefModel.v", "tools/vlib/xref_common.py, tools/writers/dexwriter.py"]
-STREAMS = [X.STREAM(X.oracle_c15)]
+STREAMS = [X.STREAM(X.oracle_c15), X.STREAM15_SHADOW()]
